@@ -678,10 +678,31 @@ func cmdCheck(args []string) int {
 		}
 		results = rs
 	}
-	if *prop == "C13" {
-		mo := g.memoObligations()
-		solveRaw(mo, timeout, workers)
-		results = append(results, &unitResult{Unit: &Unit{Pkg: "", Func: "build-cache-keys", Props: []string{"C13"}, Opts: map[string]bool{}}, VC: &FnVC{}, Obls: mo})
+	{
+		// build-cache key obligations: all of them for C13; for any other property those of the cache sites inside
+		// functions whose contract unit carries that property (e.g. the rule's regex selectors for C01)
+		var mo []*Obligation
+		for _, o := range g.memoObligations() {
+			if *prop == "C13" {
+				mo = append(mo, o)
+				continue
+			}
+			if o.Class != "memo-keyval" {
+				continue
+			}
+			fk := o.Name[:strings.Index(o.Name, "#")]
+			if u := g.C.Units[fk]; u != nil {
+				for _, pp := range u.Props {
+					if pp == *prop {
+						mo = append(mo, o)
+					}
+				}
+			}
+		}
+		if len(mo) > 0 {
+			solveRaw(mo, timeout, workers)
+			results = append(results, &unitResult{Unit: &Unit{Pkg: "", Func: "build-cache-keys", Props: []string{*prop}, Opts: map[string]bool{}}, VC: &FnVC{}, Obls: mo})
+		}
 	}
 	sweepInv := map[string]map[int][]string{}
 	var sweepDischarged []string
@@ -1001,6 +1022,24 @@ func cmdUnit(args []string) int {
 			}
 			for _, s := range r.VC.outside {
 				fmt.Println("   OUTSIDE:", s)
+			}
+			if os.Getenv("GOVC_LOOPS") != "" {
+				for h, li := range r.VC.loops {
+					var names []string
+					for _, in := range h.Instrs {
+						if phi, ok := in.(*ssa.Phi); ok {
+							names = append(names, phiAlias(phi.Comment))
+						}
+					}
+					pos := ""
+					for _, in := range h.Instrs {
+						if in.Pos().IsValid() {
+							pos = g.fset.Position(in.Pos()).String()
+							break
+						}
+					}
+					fmt.Printf("   loop %d: header block %d (%s) vars %v at %s\n", li.ordinal, h.Index, h.Comment, names, pos)
+				}
 			}
 			for _, s := range r.VC.notes {
 				fmt.Println("   note:", s)
